@@ -428,13 +428,17 @@ func c19Getters(e *Env, gm *wiring.GoModel, ym *wiring.YModel, ys *wiring.YServi
 func builtinFuncs(e *Env) map[string]string {
 	out := map[string]string{}
 	// on SSA: the constant entries of the map that is stored into Meta.Functions (a literal or make + stores)
-	if fn := e.P.Func("internal/cmd/runner", "StepDefaultInput.Run"); fn != nil {
+	if top := e.P.Func("internal/cmd/runner", "StepDefaultInput.Run"); top != nil {
+		// the function (Run itself or a helper it calls) that stores the map into Meta.Functions
+		fn := top
 		var target ssa.Value
-		for _, b := range fn.Blocks {
-			for _, ins := range b.Instrs {
-				if st, ok := ins.(*ssa.Store); ok {
-					if fa, ok := st.Addr.(*ssa.FieldAddr); ok && fieldName(fa) == "Functions" {
-						target = st.Val
+		for _, uf := range unitFns(top, 1) {
+			for _, b := range uf.Blocks {
+				for _, ins := range b.Instrs {
+					if st, ok := ins.(*ssa.Store); ok {
+						if fa, ok := st.Addr.(*ssa.FieldAddr); ok && fieldName(fa) == "Functions" {
+							target, fn = st.Val, uf
+						}
 					}
 				}
 			}
